@@ -116,8 +116,14 @@ def write_v(name, vals, order):
     p = os.path.join(OUT_V, name + '.v')
     old = open(p).read() if os.path.exists(p) else None
     if old != txt:
-        open(p, 'w').write(txt)
-    json.dump(vals, open(os.path.join(OUT_J, name + '.json'), 'w'), indent=0, sort_keys=True)
+        tmp = p + '.%d.tmp' % os.getpid()
+        with open(tmp, 'w') as f: f.write(txt)
+        os.replace(tmp, p)
+    jp = os.path.join(OUT_J, name + '.json'); jtxt = json.dumps(vals, indent=0, sort_keys=True)
+    if not (os.path.exists(jp) and open(jp).read() == jtxt):
+        tmp = jp + '.%d.tmp' % os.getpid()
+        with open(tmp, 'w') as f: f.write(jtxt)
+        os.replace(tmp, jp)
 
 def gen(groups=None, repo=None):
     os.makedirs(OUT_V, exist_ok=True); os.makedirs(OUT_J, exist_ok=True)
